@@ -324,4 +324,6 @@ def run(ctx):
     ctx.guard("R16.3", "forward-skip", r3, ctx)
     ctx.guard("R16.4", "backward", r4, ctx)
     ctx.guard("R16.5", "connect-sizes", r5, ctx)
-    ctx.floor("R16.3", 9, "3 wiring facts + 5 accumulation arms + dispatch field")
+    from .c11 import primitives
+    ctx.guard("R16.3", "primitives", primitives, ctx, "R16.3")
+    ctx.floor("R16.3", 10, "3 wiring facts + 5 accumulation arms + dispatch field")
